@@ -897,6 +897,24 @@ Proof. intros H HB. destruct (SI_B _ _ H HB) as (A & B' & _). split; assumption.
 Lemma SE_trans w0 w1 w2 : SE w0 w1 -> SE w1 w2 -> SE w0 w2.
 Proof. intros [A1 A2] [B1 B2]. split; [exact B1 | congruence]. Qed.
 
+Lemma do_pause_deferred_spec msg next w0 w (Q : result bool -> world -> Prop) :
+  B w0 w ->
+  (forall r w', IB w' -> t0 w' = t0 w0 -> stepping w' = stepping w0 -> transitioning w' = transitioning w0 ->
+                transition_failing w' = transition_failing w0 -> Q r w') ->
+  wp (do_pause_deferred msg next) Q w.
+Proof.
+  intros HB HQ. unfold do_pause_deferred. do 2 wp_prim.
+  assert (Hold : wp (do_pause (do_ctl reent_fuel) msg next) Q w).
+  { eapply do_pause_spec; [apply do_ctl_keeps | exact HB|]. intros r w1 I1 A1 A2 A3 A5 _. apply HQ; assumption. }
+  destruct next as [ns|]; [|exact Hold]. destruct (pausing w) as [a'|]; [|exact Hold].
+  wp_prim. wp_prim. apply (transition_keeps (Some ns) w0); [exact HB|]. intros r1 w1 H1. destruct r1; cbv beta iota.
+  - do 2 wp_prim.
+    match goal with |- wp (if ?c then _ else _) _ _ => destruct c end.
+    + eapply do_pause_spec; [apply do_ctl_keeps | exact H1|]. intros r w2 I2 A1 A2 A3 A5 _. wp_prim. destruct r; apply HQ; assumption.
+    + do 2 wp_prim. destruct H1 as [I1 (A1 & A2 & A3 & A4 & A5)]. apply HQ; assumption.
+  - wp_prim. destruct H1 as [I1 (A1 & A2 & A3 & A4 & A5)]. apply HQ; assumption.
+Qed.
+
 Lemma run_action_spec id next w (Q : result unit -> world -> Prop) :
   SI w -> (forall r w', SE w w' -> stepping w' = stepping w -> Q r w') -> wp (run_action id next) Q w.
 Proof.
@@ -925,7 +943,7 @@ Proof.
     wp_case; try (wp_prim; apply Hd1; exact HB1).
     eapply set_act_fut_total; [exact HB1|]. intros u w2 H2. apply Hd1; exact H2. }
   wp_case.
-  - eapply do_pause_spec; [apply do_ctl_keeps | exact HB |]. intros r w1 I1 A1 A2 A3 A5 _. cbv beta iota.
+  - eapply do_pause_deferred_spec; [exact HB |]. intros r w1 I1 A1 A2 A3 A5. cbv beta iota.
     apply Hk; [split; [split; [exact I1 | congruence] | exact A1] | exact A2].
   - wp_prim.
     assert (Hcase : forall (tgt : option pstate) (b : bool),
